@@ -71,5 +71,16 @@ func (p suffixedPartition) IntermediateKeyID() string {
 
 // IsValidIntermediateKeyID ensures the given ID is a valid intermediate key ID for this partition.
 func (p suffixedPartition) IsValidIntermediateKeyID(id string) bool {
-	return id == p.IntermediateKeyID() || strings.Index(id, p.defaultPartition.IntermediateKeyID()) == 0
+	unsuffixed := p.defaultPartition.IntermediateKeyID()
+	if id == p.IntermediateKeyID() || id == unsuffixed {
+		return true
+	}
+
+	// Also accept this partition's key under another region's suffix. A bare prefix match
+	// would accept keys of other partitions whose IDs merely start with this partition's
+	// key ID (e.g. partition "<id>_<service>_<product>"), so require exactly one more
+	// underscore-free component.
+	suffix, found := strings.CutPrefix(id, unsuffixed+"_")
+
+	return found && suffix != "" && !strings.Contains(suffix, "_")
 }
